@@ -1657,3 +1657,222 @@ func c17R15(c *Ctx, r *Report) {
 	}
 	r.Check(hasAlloca && hasTest, rule, snap.Name(), "copies a by-reference value into a fresh slot", c.pos(snap.Decl.Pos()), "snapshotValue no longer copies by-reference values out of their place")
 }
+
+// ---- C17.R16 / C18.R13: operands evaluated earlier are not changed by operands evaluated later -------------------
+
+func init() {
+	lateInits = append(lateInits, func() {
+		props["C17"].Quick = append(props["C17"].Quick, c17R16)
+		props["C18"].Quick = append(props["C18"].Quick, c18R13)
+		props["C01"].Quick = append(props["C01"].Quick, c18R13)
+		props["C17"].Explanation += " (R16) a map store copies its key out of the place it was read from before the right-hand side is lowered (a 128/256-bit or struct key is denoted by the address of the variable)."
+		props["C18"].Explanation += " (R13) lowerCallArgs copies a by-value argument of a by-reference type out of its place unless every later argument is a simple operand (names, literals, selections, references, negations, casts): an aggregate argument is a snapshot with respect to the arguments evaluated after it, as a scalar one is."
+	})
+}
+
+func c17R16(c *Ctx, r *Report) {
+	const rule = "C17.R16"
+	r.Describe(rule, "mir/gen.lowerMapIndexAssign: every path to the lowering of the right-hand side (lowerExpr(rhs) / lowerCompoundValue(…, rhs, …)) has passed `keyVal = b.snapshotValue(keyVal, …)`")
+	fn := c.LookupFn(pkgMIRGen, "(*functionBuilder).lowerMapIndexAssign")
+	snap := c.LookupFn(pkgMIRGen, "(*functionBuilder).snapshotValue")
+	if !r.Anchor(rule, fn != nil && snap != nil && fn.Decl.Body != nil, "mir/gen lowerMapIndexAssign / snapshotValue") {
+		return
+	}
+	info := fn.Info()
+	rhs := fn.ParamNamed("rhs")
+	if !r.Anchor(rule, rhs != nil, "lowerMapIndexAssign(…, rhs, …)") {
+		return
+	}
+	var key types.Object
+	hits := mustFlow(c.CFG(fn), FlowSpec{
+		Gate: func(x ast.Node) bool {
+			as, ok := x.(*ast.AssignStmt)
+			if !ok || len(as.Lhs) != 1 || len(as.Rhs) != 1 {
+				return false
+			}
+			cl, ok := ast.Unparen(as.Rhs[0]).(*ast.CallExpr)
+			if !ok || !isCallTo(info, cl, snap.Obj) || len(cl.Args) < 1 || objOf(info, cl.Args[0]) != objOf(info, as.Lhs[0]) {
+				return false
+			}
+			key = objOf(info, as.Lhs[0])
+			return true
+		},
+		Target: func(x ast.Node) bool {
+			found := false
+			inspectShallow(x, func(y ast.Node) bool {
+				if cl, ok := y.(*ast.CallExpr); ok {
+					for _, a := range cl.Args {
+						if objOf(info, a) == rhs {
+							found = true
+						}
+					}
+				}
+				return true
+			})
+			return found
+		},
+	})
+	pos := fn.Decl.Pos()
+	if len(hits) > 0 {
+		pos = hits[0].Pos
+	}
+	// the snapshotted variable is the one handed to MapSet as the key
+	usedAsKey := false
+	ast.Inspect(fn.Decl.Body, func(x ast.Node) bool {
+		if kv, ok := x.(*ast.KeyValueExpr); ok {
+			if id, ok := kv.Key.(*ast.Ident); ok && id.Name == "Key" && key != nil && objOf(info, kv.Value) == key {
+				usedAsKey = true
+			}
+		}
+		return true
+	})
+	r.Check(len(hits) == 0 && usedAsKey, rule, fn.Name(), "the key is snapshotted before the right-hand side is lowered", c.pos(pos),
+		"the key of `m[k] = rhs` is still the address of k when rhs runs: `let kw: i128 = 1; let g := fn() -> i32 { kw = kw + 1; return 100; }; w[kw] = g();` stored under 2 (with i32 keys: under 1)")
+}
+
+func c18R13(c *Ctx, r *Report) {
+	const rule = "C18.R13"
+	r.Describe(rule, "mir/gen.lowerCallArgs: in the loop over the arguments `val = b.snapshotValue(val, …)` precedes the append of val; its guard has no conjunct other than a negated reference-type test of the argument type and a negated call P(args[i+1:]) where every `return true` of P and of the predicate it applies per element stands in a case clause of Ident, Literal, ParenExpr, SelectorExpr, UnaryExpr or CastExpr")
+	fn := c.LookupFn(pkgMIRGen, "(*functionBuilder).lowerCallArgs")
+	snap := c.LookupFn(pkgMIRGen, "(*functionBuilder).snapshotValue")
+	if !r.Anchor(rule, fn != nil && snap != nil && fn.Decl.Body != nil, "mir/gen lowerCallArgs / snapshotValue") {
+		return
+	}
+	info := fn.Info()
+	args := fn.ParamNamed("args")
+	var loop *ast.RangeStmt
+	ast.Inspect(fn.Decl.Body, func(x ast.Node) bool {
+		if rs, ok := x.(*ast.RangeStmt); ok && objOf(info, rs.X) == args && loop == nil {
+			loop = rs
+		}
+		return true
+	})
+	if !r.Anchor(rule, loop != nil && args != nil, "lowerCallArgs: for … range args") {
+		return
+	}
+	simpleKinds := map[string]bool{"Ident": true, "Literal": true, "ParenExpr": true, "SelectorExpr": true, "UnaryExpr": true, "CastExpr": true}
+	var simplePred func(f *Fn, depth int) bool
+	simplePred = func(f *Fn, depth int) bool {
+		if f == nil || f.Decl == nil || f.Decl.Body == nil || depth > 2 {
+			return false
+		}
+		finfo := f.Info()
+		ok := true
+		walkWithStack(f.Decl.Body, func(x ast.Node, stack []ast.Node) bool {
+			ret, isRet := x.(*ast.ReturnStmt)
+			if !isRet || len(ret.Results) != 1 {
+				return true
+			}
+			res := ast.Unparen(ret.Results[0])
+			if v := constOf(finfo, res); v != nil {
+				if !boolVal(v) {
+					return true
+				}
+				// `return true`: inside a case clause of simple kinds only, or after a loop that returned false for
+				// every non-simple element (function-level return true)
+				inCase := false
+				for _, a := range stack {
+					if cc, isCC := a.(*ast.CaseClause); isCC {
+						inCase = true
+						for _, t := range caseTypes(finfo, cc) {
+							if nt := namedOf(t); nt == nil || !simpleKinds[nt.Obj().Name()] {
+								ok = false
+							}
+						}
+						if len(cc.List) == 0 {
+							ok = false
+						}
+					}
+				}
+				if !inCase {
+					// function-level `return true`: every loop before it must return false on !P(elem)
+					hasLoopGuard := false
+					ast.Inspect(f.Decl.Body, func(y ast.Node) bool {
+						if ifs, isIf := y.(*ast.IfStmt); isIf {
+							if u, isNot := ast.Unparen(ifs.Cond).(*ast.UnaryExpr); isNot && u.Op == token.NOT {
+								if cl, isCall := ast.Unparen(u.X).(*ast.CallExpr); isCall && simplePred(c.FnOf(callee(finfo, cl)), depth+1) {
+									hasLoopGuard = true
+								}
+							}
+						}
+						return true
+					})
+					if !hasLoopGuard {
+						ok = false
+					}
+				}
+				return true
+			}
+			// `return P(e.X)`: recursion into the same kind of predicate
+			if cl, isCall := res.(*ast.CallExpr); isCall {
+				g := c.FnOf(callee(finfo, cl))
+				if g != nil && (g.Obj == f.Obj || simplePred(g, depth+1)) {
+					return true
+				}
+			}
+			ok = false
+			return true
+		})
+		return ok
+	}
+	var snapPos, appendPos token.Pos
+	guardOK := true
+	guardMsg := ""
+	walkWithStack(loop.Body, func(x ast.Node, stack []ast.Node) bool {
+		switch y := x.(type) {
+		case *ast.AssignStmt:
+			if len(y.Rhs) == 1 {
+				if cl, ok := ast.Unparen(y.Rhs[0]).(*ast.CallExpr); ok {
+					if isCallTo(info, cl, snap.Obj) && snapPos == token.NoPos {
+						snapPos = y.Pos()
+						for _, a := range stack {
+							ifs, isIf := a.(*ast.IfStmt)
+							if !isIf || !containsNode(ifs.Body, y) {
+								continue
+							}
+							for _, cj := range conjuncts(ifs.Cond) {
+								u, isNot := ast.Unparen(cj).(*ast.UnaryExpr)
+								if !isNot || u.Op != token.NOT {
+									guardOK, guardMsg = false, exprStr(cj)
+									continue
+								}
+								if id, isID := ast.Unparen(u.X).(*ast.Ident); isID {
+									// `!isRef` from `_, isRef := UnwrapType(argType).(*types.ReferenceType)` in the if's init
+									good := false
+									if init, ok := ifs.Init.(*ast.AssignStmt); ok && len(init.Lhs) == 2 && objOf(info, init.Lhs[1]) == info.Uses[id] {
+										if ta, ok := ast.Unparen(init.Rhs[0]).(*ast.TypeAssertExpr); ok {
+											if nt := namedOf(info.TypeOf(ta.Type)); nt != nil && nt.Obj().Name() == "ReferenceType" {
+												good = true
+											}
+										}
+									}
+									if !good {
+										guardOK, guardMsg = false, exprStr(cj)
+									}
+									continue
+								}
+								pc, isCall := ast.Unparen(u.X).(*ast.CallExpr)
+								if !isCall || len(pc.Args) != 1 {
+									guardOK, guardMsg = false, exprStr(cj)
+									continue
+								}
+								sl, isSlice := ast.Unparen(pc.Args[0]).(*ast.SliceExpr)
+								if !isSlice || objOf(info, sl.X) != args || sl.High != nil || !strings.HasSuffix(strings.ReplaceAll(exprStr(sl.Low), " ", ""), "+1") || !simplePred(c.FnOf(callee(info, pc)), 0) {
+									guardOK, guardMsg = false, exprStr(cj)
+								}
+							}
+						}
+					}
+					if id, ok := cl.Fun.(*ast.Ident); ok && id.Name == "append" && appendPos == token.NoPos {
+						appendPos = y.Pos()
+					}
+				}
+			}
+		}
+		return true
+	})
+	r.Check(snapPos != token.NoPos && appendPos != token.NoPos && snapPos < appendPos, rule, fn.Name(), "by-value arguments are snapshotted before they are collected", c.pos(loop.Pos()),
+		"a by-value struct / 128-bit argument is handed on as the address of the variable it was read from: `first(x, bump(&'x))` saw the x that bump had changed (501 for 41), while a scalar argument is a snapshot")
+	r.Check(guardOK, rule, fn.Name(), "the snapshot is skipped only when all later arguments are simple operands", c.pos(snapPos),
+		"the copy of a by-value aggregate argument is skipped under `"+guardMsg+"`, which does not guarantee that no later argument can run code that changes the argument's place")
+}
